@@ -550,7 +550,9 @@ def run(s):
             # table, the sampling option with and without a crystal system, two expansion ratios
             tv = (t // 3) % 3                        # 0: table + crystal system, 1: table, 2: no table
             use_table = tv != 2
-            system = "cubic" if tv == 0 else None
+            # crystal systems: cubic, and (every other block of nine) trigonal7 with WEAK normal-shear couplings c14, c15 (a fraction of a GPa next to moduli of
+            # hundreds of GPa -- tabulated, non-zero, and therefore reported like every other component, together with what the system derives from them)
+            system = ("trigonal7" if (t // 9) % 2 == 1 else "cubic") if tv == 0 else None
             mass_tab = round(rnd.uniform(50, 400), 4)
             cellmass = round(rnd.uniform(50, 400), 3) if (t + t // 3) % 2 == 0 else None
             vr = 1.2 if (t // 9) % 2 == 0 else 1.35
@@ -558,7 +560,8 @@ def run(s):
             table = None
             mods = {}
             if use_table:
-                names = ["c11", "c12", "c44"] if system == "cubic" else ["c11", "c22", "c33", "c12", "c13", "c23", "c44", "c55", "c66"]
+                names = ["c11", "c12", "c44"] if system == "cubic" else ["c11", "c33", "c12", "c13", "c44", "c14", "c15"] if system == "trigonal7" else \
+                    ["c11", "c22", "c33", "c12", "c13", "c23", "c44", "c55", "c66"]
                 # the table has ITS OWN volumes: the input volumes, the same in another order, or a different number of other volumes (three more rows)
                 tvar = (t // 2) % 3
                 Vt = V.copy() if tvar == 0 else numpy.array(rnd.sample(list(V), nv)) if tvar == 1 else numpy.linspace(V.max() * 1.02, V.min() * 0.97, nv + 3)
@@ -566,6 +569,9 @@ def run(s):
                 for k, nm in enumerate(names):
                     b0 = (300.0 if nm[1] == nm[2] and nm[1] in "123" else 90.0 if nm[1] in "123" and nm[2] in "123" else 70.0) * (1 + 0.05 * k)
                     b1, b2, b3 = rnd.uniform(200, 900), rnd.uniform(-500, 500), rnd.uniform(-4000, 4000)
+                    if nm in ("c14", "c15") and system == "trigonal7":
+                        weak = 4e-3 if nm == "c14" else -6e-4
+                        b0, b1, b2, b3 = b0 * weak, b1 * weak, b2 * weak, b3 * weak
                     # NOT quadratic in strain (cubic term): the reported modulus is the second-order least-squares fit of ALL tabulated rows, evaluated at the row's volume
                     raw[nm] = (lambda v, b0=b0, b1=b1, b2=b2, b3=b3: b0 + b1 * strain(Vref, v) + b2 * strain(Vref, v) ** 2 + b3 * strain(Vref, v) ** 3)
                     vals_t = numpy.array([float("%.10f" % raw[nm](v)) for v in Vt])
@@ -642,6 +648,10 @@ def run(s):
                 msg = "P is not -dF_fit/dV at the reported V (max dev %.3g GPa, tolerance %.3g; volumes listed %s)" % (float(numpy.abs(df["P"].to_numpy() - Pexact)[inner].max()), tolP, order)
             if not msg and use_table:
                 for nm in table[0]:
+                    if nm not in df.columns:
+                        msg = "the tabulated component %s (largest tabulated magnitude %.3g GPa) is missing from the reported table" % (
+                            nm, max(abs(r[table[0].index(nm)]) for r in table[2]))
+                        break
                     got = df[nm].to_numpy()
                     wantm = numpy.array([mods[nm](v) for v in Vau])
                     if not numpy.allclose(got, wantm, rtol=1e-5, atol=1e-4):
@@ -653,6 +663,13 @@ def run(s):
                         if a_ not in df.columns or not numpy.allclose(df[a_], df[b_], rtol=1e-9):
                             msg = "crystal system option not applied: %s != %s" % (a_, b_)
                             break
+                if not msg and system == "trigonal7":
+                    for a_, sg, b_ in (("c22", 1, "c11"), ("c23", 1, "c13"), ("c55", 1, "c44"), ("c24", -1, "c14"), ("c56", 1, "c14"), ("c25", -1, "c15"), ("c46", -1, "c15")):
+                        if a_ not in df.columns or not numpy.allclose(df[a_], sg * df[b_], rtol=1e-9, atol=1e-9):
+                            msg = "crystal system option not applied: %s != %s%s" % (a_, "-" if sg < 0 else "", b_)
+                            break
+                    if not msg and ("c66" not in df.columns or not numpy.allclose(df["c66"], (df["c11"] - df["c12"]) / 2, rtol=1e-6, atol=1e-4)):
+                        msg = "crystal system option not applied: c66 != (c11 - c12)/2"
                 if not msg:
                     mass = cellmass if cellmass else mass_tab
                     rho = mass * AMU_G / (Vau * BOHR ** 3 * 1e6)                 # g/cm^3
